@@ -42,10 +42,10 @@ CLAIMED = {
             "Theorems C09_sections/C09_files/C09_section_*/C09_layout hold for every body and every list of attachments of arbitrary bytes. The header block round trip (C09_header_roundtrip), the whole message (C09_message_roundtrip) and byte-identical re-serialisation (C09_normal_form, C09_reserialise) are theorems over the model of textproto.ReadMIMEHeader/Header.Write. PARTIAL: encoded words, charsets and non-Winlink date layouts are library code, decided per run: API-built messages (all address forms, Latin-1 subjects and file names, any minute, 0..4 attachments, X- headers) are serialised and parsed by code and model through whole, 1-byte and random-chunk readers, with parse(serialise m) = m, canonical re-serialisation and the accessors checked on the implementation.",
             "mime.QEncoding/WordDecoder, go-charset, time.Parse (beyond the four Winlink layouts) and textproto are library code: modelled or passed through; the known finding 'subject with outer white space is trimmed' is reported as KNOWN-FINDING.",
             "DESIGN.md section 6 C09"),
-    "C01": ("Coq proofs of the codecs of the exchange for all inputs (frame round trip, block order/size, block checksum, delivered => accepted transfer) + pairs of real sessions judged by the property's statement and compared side by side with the model",
-            "Theorems C01_frames_roundtrip/C01_block_order/C01_block_size/C01_block_checksum/C01_delivered_means_transferred hold for every payload, proposal list and input. PARTIAL: the pair-level statement C01_exchange_statement (two model sides, Kahn iteration) is a Prop decided per run: random scenarios (0..12 messages each way, all policies, MOTD, batched/unbatched, both roles, read segmentation from 1 byte) run on two real sessions, the statement evaluated on the handlers' logs and results, and each real side compared with the model side fed with its peer's actual bytes.",
+    "C01": ("Coq proof of the two-party exchange (every complete session of a ready pair delivers each accepted message exactly once, intact, and reports it sent exactly once; joint invariant over both sides of the session model) and of the codecs it rests on + pairs of real sessions judged by the property's statement and compared side by side with the model",
+            "Theorems C01_frames_roundtrip/C01_block_order/C01_block_size/C01_block_checksum/C01_delivered_means_transferred hold for every payload, proposal list and input. C01_exchange / C01_delivered_once: for two model sides of opposite roles with compatible handshakes, handlers present, well-formed outboxes with distinct MIDs and no failing stores, a complete session exists and every complete session ends with nil on both sides with, per outbox entry and direction, exactly one SetSent(false) and exactly one Process of the entry's own decompressed message when accepted, exactly one SetSent(true) / SetDeferred and no transfer when rejected / deferred; each hypothesis is shown necessary by a closed counterexample (C01_first_statement_refuted and B2F/DeliverP.v). PARTIAL: that the Kahn iteration from the empty input converges within the stated rounds is not proved. Per run: random scenarios (0..12 messages each way, all policies, MOTD, batched/unbatched, both roles, read segmentation from 1 byte) run on two real sessions, the statement evaluated on the handlers' logs and results, and each real side compared with the model side fed with its peer's actual bytes.",
             "Compression/serialisation of outbound messages is done by the real library in the harness and handed to the model as prepared proposals (C06/C09 cover them); gzip pairs are judged by the oracle only; mime.QEncoding is library code.",
-            "DESIGN.md section 6 C01"),
+            "DESIGN.md section 6 C01 and section 11.11"),
     "C02": ("Coq proof of two-party safety under any link cut (joint invariant over both sides of the session model), of causality, sender half and receiver half, that a cut session never panics and hands over only accepted transfers + every cut position / storage error / faulty-session history replayed on real sessions with the property's safety and convergence statements as oracle",
             "Theorems for every configuration, stream and cut position: C02_cut (the run on a prefix of the input is a prefix of the run on more input; one corner, a cut right behind an EOT byte, excluded and exhibited), C02_sender_half (reported sent only after a byte of the peer's next command behind the complete transfer; cut before it: connection lost and not reported sent), C02_receiver_half (nothing written after the FS line until every accepted message of the block is received and stored), C02_cut_no_panic, C02_intact; C02_safety (two-party: if A reports mid sent then B, fed any prefix of A's output and having produced what A received, has stored exactly the decompressed message of A's outbox; hypotheses: opposite roles, compatible handshakes, MIDs without CR/blank and compressed sizes within the wire format on both sides, A's payloads carrying their proposed MIDs), C02_safety_text; the two earlier versions of the statement are refuted in Coq (C02_first_statement_refuted, C02_second_statement_refuted_motd/_mid). PARTIAL: convergence after faulty sessions is not a theorem; per run: every cut position (quick: strided plus all positions near line ends, EOTs and the end; thorough: all) of recorded exchanges in both directions on two real sessions, ProcessInbound failing at each inbound message, 25 (300) histories of faulty sessions followed by a clean one on the reference handler with de-duplication, and 15 (150) on the real directory mailbox; the side that sees exactly k bytes is compared with the model side on that prefix.",
             "The cutting side's own input depends on goroutine timing and is judged by the oracle only; DirHandler.SetSent's log.Fatalf is outside the histories (it is only reached when a file disappears).",
